@@ -112,6 +112,9 @@ pub fn explore(ctx: &Ctx, shard: usize, n: usize) -> Report {
         rep.eval(1);
         let g = one_group(&[rule.clone()]);
         let Ok(out) = run_pub(&g, &[word.clone()], &[], &[]) else { return };
+        // the same result as a structure (hook): what the rule made must survive being written and read, bundle by bundle - the
+        // string fixed point below cannot see a bundle that is read back as another bundle with the same spelling
+        if let (Ok(pr), Ok(w)) = (compile1(&rule), parse_word(&word)) { if let Applied::Ok(res) = apply(&pr, &w) { if res != w && !res.syllables.is_empty() { word_case(rep, &res, "word"); } } }
         if out[0].contains('\u{fffd}') { rep.obs("unrenderable", 1); return }
         match run_pub(&[], &out, &[], &[]) {
             Ok(again) => if again != out { rep.violation("run-output-is-not-a-fixed-point".into(), || json!({"case": {"kind": "api", "rule": rule, "word": word}, "expected": out, "observed": again})); } else { rep.obs("fixed_points", 1); },
